@@ -4,13 +4,14 @@ CONTRACT_MODULES = ['contracts.encoding', 'contracts.scripts', 'contracts.transa
 def _c():
     import contracts.multisig as m
     thorough = os.environ.get('VERIF_TIER') == 'thorough'
-    return list(m.CASES_QUICK) + (list(m.CASES_THOROUGH) if thorough else []) + ['bitcoinlib.transactions.Input.verify', 'bitcoinlib.scripts.data_pack']
+    return list(m.CASES_QUICK) + (list(m.CASES_THOROUGH) if thorough else []) + ['bitcoinlib.transactions.Input.verify', 'bitcoinlib.scripts.data_pack',
+                                                                                          'bitcoinlib.transactions.Transaction.verify[any-count]', 'bitcoinlib.transactions.Transaction.verify[2inputs]']
 CONTRACTS = _c()
 LEVEL = 'proof'
 LEVEL_TEXT = ('Two ingredients of the property are proved. (1) SCRIPT: for n = 1..5 (thorough: ..15) keys and every threshold m <= n the multisig '
               'template instantiation + serialisation (Script.__init__, Script.serialize, data_pack) yields exactly OP_m <key 1>..<key n> OP_n '
               'OP_CHECKMULTISIG for all key bytes - so wallets that hand the same key list to it get the same script. (2) THRESHOLD: '
-              'Input.verify accepts exactly when the first m signatures match m distinct keys in key order (C02 loop-invariant proof, any n).')
+              'Input.verify accepts exactly when the first m signatures match m distinct keys in key order (C02 loop-invariant proof, any n), and Transaction.verify accepts exactly when EVERY input does (any number of inputs).')
 LEVEL_NOTE = ('Not proved (outside the verifier: ORM, object graphs): that every cosigner wallet passes the keys in the same order, signature ordering in '
               'Transaction.sign, export/import chains between wallets. These HISTORIES are covered by a BOUNDED native stand-in (bounded/c10_handoff.py, never '
               'counted as proved): m-of-n cosigner wallets on the offline test network, every ordered choice of m signers x hand-off as object / dict / raw hex '
